@@ -163,7 +163,16 @@ func (ex *Exec) step(instr ssa.Instruction) {
 		ds := ex.st.defers
 		ex.st.defers = nil
 		for i := len(ds) - 1; i >= 0; i-- {
+			if ds[i].cond.S == "" {
+				ex.callValue(nil, ds[i].call, ds[i].fn, ds[i].args, ds[i].pos)
+				continue
+			}
+			// conditional defer: run it on the paths that registered it, skip it on the others
+			skip := ex.st.clone()
+			skip.pc = ex.vc.Define("pc", And(skip.pc, Not(ds[i].cond)))
+			ex.st.pc = ex.vc.Define("pc", And(ex.st.pc, ds[i].cond))
 			ex.callValue(nil, ds[i].call, ds[i].fn, ds[i].args, ds[i].pos)
+			ex.st = ex.mergeStates([]*State{ex.st, skip})
 		}
 	case *ssa.Go:
 		ex.doGo(x)
